@@ -173,6 +173,10 @@ def rules(fx, rep):
     from props import c02
     c02.rule_buffers(fx, rep)
     c02.rule_staging(fx, rep)
+    # ---- caller-provided table buffers: the tables written by precomp_3 / precomp_256 (and hence the
+    # products computed from them) do not depend on what the buffer held before the call
+    import bitlin
+    bitlin.rule_scalar_mul(fx, rep, c02.GROUPS)
     # ---- prepared elements
     from props import c03
     c03.rule_prepared_types(fx, rep)
